@@ -59,3 +59,25 @@ def gen_claim(rng, ncas=None, lat=None, one_per_stack=True):
     lat = lat or [rng.choice([0, 1, 5000]) for _ in range(rng.choice([1, 2, 3]))]
     horizon = max(e['t'] + e['delay'] for e in script) + 4_000_000
     return dict(stacks=stacks, lat=lat, jit=[rng.choice([1, 1000])], script=script, horizon=horizon)
+
+
+def gen_late_third(rng):
+    """B (arbitrary address capable) is operational on X, loses X to A (lower NAME) and announces X+1; while B waits for vetoes on
+    X+1 a third CA claims X+1 — 260..480 ms after B's announcement, i.e. later than the 250 ms after which B could already be
+    operational but possibly before B's claim timer has looked: whoever has the lower NAME keeps X+1, the other moves or gives up"""
+    X = rng.choice(VETO[:100])
+    nb = mk_name(rng, True, None) | (1 << 50)
+    na = (nb - (1 << 50) + rng.randint(0, 1000)) & ~(1 << 48)
+    c_lower = rng.random() < 0.5
+    c_aac = rng.random() < 0.5
+    nc = mk_name(rng, c_aac, None)
+    nc = ((nc & ~(0xFFFF << 40)) | ((nb >> 40 & 0xFFFF) + (-3 if c_lower else 3)) << 40) & ((1 << 63) - 1) | ((1 << 63) if c_aac else 0)
+    if (nc & ~(1 << 48)) == (nb & ~(1 << 48)):
+        nc ^= 1
+    ta = rng.choice([700_000, 830_000, 960_000])
+    d = rng.choice([260_000, 300_000, 350_000, 400_000, 450_000, 480_000])
+    stacks = [dict(dll='j1939-21', max_cmdt=1, subs=[], cas=[dict(name=nb, addr=X, bypass=False, subs=[1], req=[2])]),
+              dict(dll='j1939-21', max_cmdt=1, subs=[], cas=[dict(name=na, addr=X, bypass=False, subs=[11], req=[12])]),
+              dict(dll='j1939-21', max_cmdt=1, subs=[], cas=[dict(name=nc, addr=X + 1, bypass=False, subs=[21], req=[22])])]
+    script = [dict(t=1000, s=0, op='ca_start', ca=0, delay=0), dict(t=ta, s=1, op='ca_start', ca=0, delay=0), dict(t=ta + d, s=2, op='ca_start', ca=0, delay=0)]
+    return dict(stacks=stacks, lat=[rng.choice([1, 500])], jit=[1], script=script, horizon=ta + d + 4_000_000)
